@@ -25,13 +25,14 @@ class Unit:
     """one wrapper TU + defines -> one generated C file; `entries` = harness functions (VF_HARNESS names) to decide"""
     def __init__(s, prop, tu, name=None, defines=None, entries=None, narrow=32, unwind=6, unwindset=None, objbits=None, timeout=600,
                  tier='quick', exceptions=False, stubs=(), heap=512, slots=1, backend='cadical', cflags=(), rnd=(-3, 9), nvec=300,
-                 kf=None, per_entry=None, skip_entries=(), native_libs=(), wide_also=False, no_overflow_check=False, mustfire=False, mm=24, fs=None, inline=100000):
+                 kf=None, per_entry=None, skip_entries=(), native_libs=(), wide_also=False, no_overflow_check=False, mustfire=False, mm=24, fs=None, inline=100000, reject=()):
         s.prop = prop; s.tu = tu; s.defines = dict(defines or {}); s.entries = entries; s.narrow = narrow; s.unwind = unwind
         s.unwindset = dict(unwindset or {}); s.objbits = objbits; s.timeout = timeout; s.tier = tier; s.exceptions = exceptions
         s.stubs = list(stubs); s.heap = heap; s.slots = slots; s.backend = backend; s.cflags = list(cflags); s.rnd = rnd; s.nvec = nvec
         s.kf = dict(kf or {})            # entry name -> known-finding id (the entry is the finding's twin: expected to fail there)
         s.per_entry = dict(per_entry or {})  # entry -> dict(unwind=..., timeout=..., unwindset=..., objbits=...)
         s.skip_entries = set(skip_entries); s.native_libs = list(native_libs); s.no_overflow_check = no_overflow_check; s.mustfire = mustfire; s.mm = mm; s.fs = fs; s.inline = inline
+        s.reject = [re.compile(x) for x in reject]   # library assertion sites whose firing is a documented REJECTION of the input (allowed outcome), not a violation
         s.name = name or (os.path.splitext(tu)[0] + ''.join('_%s%s' % (k, v) for k, v in sorted(s.defines.items())))
         s.name = re.sub(r'[^A-Za-z0-9_]', '_', s.name)
 
@@ -270,9 +271,10 @@ def do_check(ctx, registry, a):
         for f in cb_f: f.cancel()
         write_evidence(ctx, a, units, builds, results, diffres, violations, known_hits, problems, t_start, 0)
         return 2
+    umap0 = {u.name: u for u in units}
     for f in cf.as_completed(cb_f):
         r = f.result(); results.append(r)
-        np_ = len(r['props']); nf = sum(1 for p in r['props'] if p['status'] == 'FAILURE' and classify(p['desc']) not in ('reach', 'mustfire'))
+        np_ = len(r['props']); nf = sum(1 for p in r['props'] if p['status'] == 'FAILURE' and classify(p['desc']) not in ('reach', 'mustfire') and not (classify(p['desc']) == 'libassert' and any(x.search(p['desc']) for x in umap0[r['unit']].reject)))
         ctx.say('  %-28s %-22s %-8s %4d props %3d failed  %6.1fs %5d MB' % (r['unit'], r['entry'], r['status'], np_, nf, r['solver_s'], r['rss_kb'] // 1024))
     # translator validation, seeded by the solver's witnesses
     wseeds = {}
@@ -302,7 +304,7 @@ def do_check(ctx, registry, a):
                 if not kf_id: problems.append('BROKEN %s: witness "%s" is not reachable (vacuous harness)' % (tag, p['desc']))
                 continue
             ev, _ = events(natives[u.name]['real'], 'replay', r['entry'], p.get('inputs', []))
-            okw = ('R ' + p['desc']) in ev and not any(e.startswith('A 0') or e[0] in ('STXE' if u.mustfire else 'LSTXE') for e in ev)
+            okw = ('R ' + p['desc']) in ev and not any(e.startswith('A 0') or (e[0] in ('STXE' if u.mustfire else 'LSTXE') and not (e[0] == 'L' and any(x.search(e[2:]) for x in u.reject))) for e in ev)
             if okw: validated += 1; r.setdefault('witness_inputs', p.get('inputs', []))
             elif not kf_id:
                 problems.append('BROKEN %s: witness trace for "%s" does not replay on the real build: inputs=%s events=%s' % (tag, p['desc'], p.get('inputs'), ev[-6:]))
@@ -317,6 +319,9 @@ def do_check(ctx, registry, a):
                 else: problems.append('BROKEN %s: firing of "%s" does not replay natively: inputs=%s events=%s' % (tag, p['desc'], p.get('inputs'), ev[-4:]))
             r['mustfire_sites'] = [p['desc'] for p in mf]
         fails = [p for p in r['props'] if p['status'] == 'FAILURE' and classify(p['desc']) not in ('reach', 'mustfire')]
+        rej = [p for p in fails if classify(p['desc']) == 'libassert' and any(x.search(p['desc']) for x in u.reject)]
+        if rej:
+            r['rejections'] = sorted(set(p['desc'] for p in rej)); fails = [p for p in fails if p not in rej]
         others = [p for p in r['props'] if p['status'] not in ('SUCCESS', 'FAILURE')]
         if others: inconclusive.append('INCONCLUSIVE %s: %d properties undecided (%s)' % (tag, len(others), others[0]['status']))
         if kf_id is not None and kf_id in known_ids:
@@ -410,7 +415,7 @@ def write_evidence(ctx, a, units, builds, results, diffres, violations, known_hi
     for r in sorted(results, key=lambda r: (r['unit'], r['entry']))[:40]:
         samples.append(dict(harness=r['unit'] + ':' + r['entry'], bounds=r['bounds'], cbmc_properties=len(r['props']),
                             proved=sum(1 for p in r['props'] if p['status'] == 'SUCCESS'), solver_s=r['solver_s'], rss_kb=r['rss_kb'],
-                            witness_inputs=r.get('witness_inputs'), status=r['status'], known_finding=r.get('known_finding'), mustfire_sites=r.get('mustfire_sites')))
+                            witness_inputs=r.get('witness_inputs'), status=r['status'], known_finding=r.get('known_finding'), mustfire_sites=r.get('mustfire_sites'), accepted_rejections=r.get('rejections')))
     ev = dict(
         property_id=prop, tier=a.tier, seed=ctx.seed, level='model_checking',
         coverage=dict(
